@@ -21,6 +21,16 @@ TECH = "Lean 4 theorems over a hand-written executable model; tie = decision exp
 NOT_APPLICABLE = {}
 
 PROPS = {
+    "C13": dict(
+        level="proof", engines=[eng("codec", 30000, 2000000)], labels=["C13"],
+        text="Theorems (Props/C13.lean): LEB128 varint round trip for every 64-bit value and continuation; frame round trip for all byte strings; a non-negative "
+             "length result stays inside the buffer and a negative one comes with an empty slice; decode(encode) yields the same metadata and message of the type the "
+             "direction selects; with the checked assertion the decoder panics on no byte string (unmarshal_total). Tie (Tie/C13.lean): the comma-ok form of the descriptor "
+             "assertion and the two arms of the direction switch are read from encoding.go on every run; digests of the codec functions; exact differential run of "
+             "Marshal/Unmarshal (under recover) against the Lean framing model, with protowire's own slices compared with the model's on every input.",
+        note="Trusted: Lean kernel; protobuf marshal/unmarshal round trip and registry consistency (oracle parameters: the harness feeds the real functions' answers to the model); "
+             "an empty metadata buffer names no registered entity; gx's reading of the assertion form and the switch arms.",
+    ),
     "C19": dict(
         level="proof", engines=[eng("sort", 20000, 2000000)], labels=["C19"],
         text="Theorems (Props/C19.lean): MultiSorter.Less is the lexicographic order of its keys (multiLess_is_lex); the lexicographic order of strict weak orders is a "
